@@ -1148,35 +1148,89 @@ func c08r13(rc *core.RC) {
 			}
 			fname := p.FuncName(fd)
 			rc.Touch(fname)
-			alias := core.AliasClosure(fn, seeds)
-			k := 0
 			for range seeds {
 				n++
 			}
+			k := 0
 			bad := false
-			for _, b := range fn.Blocks {
-				for _, ins := range b.Instrs {
-					switch x := ins.(type) {
-					case *ssa.Call:
-						bi, ok := x.Common().Value.(*ssa.Builtin)
-						if !ok {
-							continue
+			// writes in fn and, through arguments, in the module functions it hands the slice to (two levels)
+			var scan func(f *ssa.Function, seeds []ssa.Value, depth int, via string)
+			scan = func(f *ssa.Function, seeds []ssa.Value, depth int, via string) {
+				alias := core.AliasClosure(f, seeds)
+				// results of module callees that may return (part of) an aliased argument are aliases too
+				for changed := true; changed; {
+					changed = false
+					for _, b := range f.Blocks {
+						for _, ins := range b.Instrs {
+							c, ok := ins.(*ssa.Call)
+							if !ok || alias[c] {
+								continue
+							}
+							callee := c.Common().StaticCallee()
+							if callee == nil || callee.Blocks == nil || !strings.HasPrefix(callee.Pkg.Pkg.Path(), core.ModPath) {
+								continue
+							}
+							for ai, a := range c.Common().Args {
+								if !alias[a] || ai >= len(callee.Params) {
+									continue
+								}
+								ca := core.AliasClosure(callee, []ssa.Value{callee.Params[ai]})
+								for _, cb := range callee.Blocks {
+									for _, ci := range cb.Instrs {
+										if r, isRet := ci.(*ssa.Return); isRet && len(r.Results) > 0 && ca[r.Results[0]] {
+											alias[c] = true
+											changed = true
+										}
+									}
+								}
+							}
 						}
-						args := x.Common().Args
-						if (bi.Name() == "append" || bi.Name() == "copy") && len(args) > 0 && alias[args[0]] {
-							k++
-							bad = true
-							rc.Bad(fmt.Sprintf("%s/marshaler-result-written#%d", fname, k), core.SSAPos(x), "the slice returned by the user's MarshalJSON/MarshalText is the destination of %s: that writes into memory the user's value owns (append writes into spare capacity)", bi.Name())
+					}
+					if changed {
+						var more []ssa.Value
+						for v := range alias {
+							more = append(more, v)
 						}
-					case *ssa.Store:
-						if ia, ok := x.Addr.(*ssa.IndexAddr); ok && alias[ia.X] {
-							k++
-							bad = true
-							rc.Bad(fmt.Sprintf("%s/marshaler-result-written#%d", fname, k), core.SSAPos(x), "an element of the slice returned by the user's MarshalJSON/MarshalText is overwritten")
+						alias = core.AliasClosure(f, more)
+					}
+				}
+				for _, b := range f.Blocks {
+					for _, ins := range b.Instrs {
+						switch x := ins.(type) {
+						case *ssa.Call:
+							args := x.Common().Args
+							if bi, ok := x.Common().Value.(*ssa.Builtin); ok {
+								if (bi.Name() == "append" || bi.Name() == "copy") && len(args) > 0 && alias[args[0]] {
+									k++
+									bad = true
+									rc.Bad(fmt.Sprintf("%s/marshaler-result-written#%d", fname, k), core.SSAPos(x), "the slice returned by the user's MarshalJSON/MarshalText is the destination of %s%s: that writes into memory the user's value owns (append writes into spare capacity)", bi.Name(), via)
+								}
+								continue
+							}
+							callee := x.Common().StaticCallee()
+							if depth <= 0 || callee == nil || callee.Blocks == nil || callee.Pkg == nil || !strings.HasPrefix(callee.Pkg.Pkg.Path(), core.ModPath) {
+								continue
+							}
+							var sub []ssa.Value
+							for ai, a := range args {
+								if alias[a] && ai < len(callee.Params) {
+									sub = append(sub, callee.Params[ai])
+								}
+							}
+							if len(sub) > 0 {
+								scan(callee, sub, depth-1, via+" in "+core.SSAName(callee))
+							}
+						case *ssa.Store:
+							if ia, ok := x.Addr.(*ssa.IndexAddr); ok && alias[ia.X] {
+								k++
+								bad = true
+								rc.Bad(fmt.Sprintf("%s/marshaler-result-written#%d", fname, k), core.SSAPos(x), "an element of the slice returned by the user's MarshalJSON/MarshalText is overwritten%s", via)
+							}
 						}
 					}
 				}
 			}
+			scan(fn, seeds, 2, "")
 			if !bad {
 				rc.OK(fname+"/marshaler-result-read-only", fd.Pos(), "%d marshaler result(s): only read or copied", len(seeds))
 			}
